@@ -55,7 +55,16 @@ var progs = []progT{
 	{path: "example.com/tools/local.agent", ver: "v0.9.0", gover: "go1.22.1"},
 }
 
-var ctrNames = []string{"c0", "c1", "c2", "c3"}
+// c4: a counter name that is not valid UTF-8 (the library takes any bytes; JSON writes U+FFFD for the stray byte)
+var ctrNames = []string{"c0", "c1", "c2", "c3", "c4\xffz"}
+
+// ctrChance: how often a counter is put into a file (the odd name in few files, so that most weeks stay plain)
+func ctrChance(ci, p int) int {
+	if ci == 4 {
+		return 12
+	}
+	return p
+}
 
 // stack counters (a name with a newline; the part before it is the name the
 // upload config approves): ids stackBase+i
@@ -98,7 +107,7 @@ func (w *world) progID(key string) int {
 
 func ctrID(name string) int64 {
 	for i, n := range ctrNames {
-		if n == name {
+		if n == name || strings.ToValidUTF8(n, "\uFFFD") == name {
 			return int64(i)
 		}
 	}
@@ -269,6 +278,51 @@ func (w *world) makeCount(p progT, now time.Time, ctrs [][2]int64, extra ...stri
 	return name
 }
 
+// encodeCountFile lays out a count file as internal/counter/file.go documents the v1 format: header
+// (prefix, uint32 header length, metadata), allocation limit, 512 hash heads, 32-byte aligned records
+// (value, name length | 0xff000000, next, name) that do not straddle a page.  Independent of the library:
+// used for files whose METADATA the library would not write (an end time spelled in another zone).
+func encodeCountFile(meta string, names []string, values []uint64) []byte {
+	const prefix = "# telemetry/counter file v1\n"
+	const unit, nhash, page = 32, 512, 16 * 1024
+	round := func(x, u int) int { return (x + u - 1) / u * u }
+	hash := func(s string) uint32 {
+		h := uint32(2166136261)
+		for i := 0; i < len(s); i++ {
+			h = (h ^ uint32(s[i])) * 16777619
+		}
+		return (h ^ (h >> 16)) % nhash
+	}
+	np := round(len(prefix), 4)
+	hdrLen := round(np+4+len(meta), 32)
+	buf := make([]byte, page)
+	copy(buf, prefix)
+	binary.LittleEndian.PutUint32(buf[np:], uint32(hdrLen))
+	copy(buf[np+4:], meta)
+	limit := hdrLen + 4 + 4*nhash
+	for i, name := range names {
+		n := round(16+len(name), unit)
+		start := round(limit, unit)
+		if start/page != (start+n)/page {
+			start = round(limit, page)
+		}
+		end := start + n
+		for len(buf) < round(end+unit, page) {
+			buf = append(buf, make([]byte, page)...)
+		}
+		headOff := hdrLen + 4 + 4*int(hash(name))
+		head := binary.LittleEndian.Uint32(buf[headOff:])
+		binary.LittleEndian.PutUint64(buf[start:], values[i])
+		binary.LittleEndian.PutUint32(buf[start+8:], uint32(len(name))|0xff000000)
+		binary.LittleEndian.PutUint32(buf[start+12:], head)
+		copy(buf[start+16:], name)
+		binary.LittleEndian.PutUint32(buf[headOff:], uint32(start))
+		limit = end
+	}
+	binary.LittleEndian.PutUint32(buf[hdrLen:], uint32(limit))
+	return buf
+}
+
 // zoneOf: the offset (seconds east of UTC) of the clock a start time is expressed on
 func zoneOf(t time.Time) int64 {
 	_, off := t.Zone()
@@ -356,6 +410,7 @@ type scen struct {
 	eventual bool
 	directed string // "" | race3 | emptybody | lateunlock: a scripted interleaving over a forced file set
 	pending2 bool   // the forced file set has 2-3 weeks (two or more reports to upload)
+	stubborn bool   // the server never accepts the OLDEST week (5xx / no answer), every other week gets 200
 	// deterministic sweeps of the thorough tier
 	small       bool  // the forced small file set (one week, two program builds)
 	sweepKill   int   // kill thread 0 after this many calls (0 = no)
@@ -413,6 +468,10 @@ func pickScen1() scen {
 	}
 	if tag == "c07" && rnd.Chance(4) {
 		return scen{kind: "race3", nthreads: 3, policy: "directed", outcomes: "all200", directed: "race3"}
+	}
+	if tag == "c08" && rnd.Chance(7) {
+		// one week the server never accepts: the other weeks must get through all the same
+		return scen{kind: "stubborn", nthreads: 1 + rnd.Intn(2), policy: "seq", outcomes: "mixed", eventual: true, small: true, pending2: true, stubborn: true}
 	}
 	if tag == "c08" && rnd.Chance(6) {
 		// a request in flight for more than a day: the lock of the run that sent it gets old
@@ -618,7 +677,7 @@ func scenario() {
 					ctrs = [][2]int64{{int64(pi), int64(1 + rnd.Intn(5))}, {3, int64(1 + rnd.Intn(5))}}
 				} else if !rnd.Chance(15) { // else: a file without counters
 					for ci := range ctrNames {
-						if rnd.Chance(55) {
+						if rnd.Chance(ctrChance(ci, 55)) {
 							ctrs = append(ctrs, [2]int64{int64(ci), int64(1 + rnd.Intn(5))})
 						}
 					}
@@ -663,7 +722,7 @@ func scenario() {
 			used[p.path+p.ver+now.Format("2006-01-02")] = true
 			var ctrs [][2]int64
 			for ci := range ctrNames {
-				if rnd.Chance(60) {
+				if rnd.Chance(ctrChance(ci, 60)) {
 					ctrs = append(ctrs, [2]int64{int64(ci), int64(10*(j+1) + rnd.Intn(5))})
 				}
 			}
@@ -694,6 +753,55 @@ func scenario() {
 			w.makeCount(p, forcedNow, [][2]int64{{int64(pi), int64(20 + rnd.Intn(9))}, {3, int64(30 + rnd.Intn(9))}, {int64((pi + 1) % 3), int64(40 + rnd.Intn(9))}})
 		}
 		out.Note("grow-files")
+	}
+
+	// a count file whose TimeEnd is the same INSTANT as a library-written file's, spelled on a clock
+	// east of UTC (same date): it belongs to the same week, and with the same identity to the same entry
+	if !forced && tag == "c07" && rnd.Chance(25) {
+		es, _ := os.ReadDir(w.local)
+		var donors []string
+		for _, e := range es {
+			if strings.HasSuffix(e.Name(), ".v1.count") && !strings.HasPrefix(e.Name(), "bad") {
+				donors = append(donors, e.Name())
+			}
+		}
+		if len(donors) > 0 {
+			dn := Pick(rnd, donors)
+			data, _ := os.ReadFile(filepath.Join(w.local, dn))
+			if pf, err := counter.Parse(dn, data); err == nil && chainsOK(data) {
+				if b, en, ok := span(pf); ok && en.UTC().Hour() == 0 {
+					loc := time.FixedZone("", Pick(rnd, []int{3600, 2 * 3600, 5*3600 + 1800, 9 * 3600, 12 * 3600}))
+					nb := b.Add(-24 * time.Hour)
+					m := pf.Meta
+					prog := m["Program"]
+					if rnd.Chance(40) {
+						prog += "z" // another program of the same week
+					}
+					meta := fmt.Sprintf("TimeBegin: %s\nTimeEnd: %s\nProgram: %s\nVersion: %s\nGoVersion: %s\nGOOS: %s\nGOARCH: %s\n\n",
+						nb.UTC().Format(time.RFC3339), en.In(loc).Format(time.RFC3339), prog, m["Version"], m["GoVersion"], m["GOOS"], m["GOARCH"])
+					ver := m["Version"]
+					if ver != "" {
+						ver = "@" + ver
+					}
+					name := fmt.Sprintf("%s%s-%s-%s-%s-%s.v1.count", filepath.Base(prog), ver, m["GoVersion"], m["GOOS"], m["GOARCH"], nb.UTC().Format("2006-01-02"))
+					if _, err := os.Stat(filepath.Join(w.local, name)); err != nil {
+						var names []string
+						var vals []uint64
+						for ci := 0; ci < 4; ci++ {
+							if rnd.Chance(70) {
+								names = append(names, ctrNames[ci])
+								vals = append(vals, uint64(50+rnd.Intn(9)))
+							}
+						}
+						if len(names) == 0 {
+							names, vals = []string{ctrNames[0]}, []uint64{57}
+						}
+						os.WriteFile(filepath.Join(w.local, name), encodeCountFile(meta, names, vals), 0666)
+						out.Note("end-spelled-in-zone")
+					}
+				}
+			}
+		}
 	}
 
 	// count files with a valid header and metadata whose hash chains leave the file: a file that
@@ -1241,12 +1349,23 @@ func scenario() {
 			if sc.fixedStatus >= 0 {
 				nextStatus = sc.fixedStatus
 			}
+			if sc.stubborn {
+				nextStatus = 200
+				if strings.HasSuffix(ci.path, "/"+weekList[0]) {
+					nextStatus = Pick(rnd, []int{500, 503, 0})
+				}
+			}
 			act = "step " + outcomeTag(nextStatus)
 			out.Note("post-" + outcomeTag(nextStatus))
 			if nextStatus != 0 && tag == "c08" && rnd.Chance(25) {
 				// the status line arrives, the body of the answer does not: the status decides all the same
 				nextStatus += vhttp.BodyCut
 				out.Note("post-answer-body-cut")
+			}
+			if nextStatus != 0 && nextStatus < vhttp.BodyCut && tag == "c08" && rnd.Chance(20) {
+				// the server takes half a minute over its answer: it has processed the request all the same
+				nextStatus += vhttp.Slow
+				out.Note("post-answer-slow")
 			}
 		}
 		nlog := len(vhttp.Log)
